@@ -213,10 +213,9 @@ Theorem C16_clean_catalog_silent : forall cfg cat ds, clean_catalog cfg cat -> c
 Proof. exact clean_catalog_silent. Qed.
 Print Assumptions C16_clean_catalog_silent.
 
-(* no crash: with int() unlimited (maxd = 0, what `import lib` sets up since the D7 fix), every Cc character named in
-   data/control-characters, and text made of scalar values (what a decoded file consists of) *)
+(* no crash: with int() unlimited (maxd = 0, what `import lib` sets up since the D7 fix) and every Cc character named in
+   data/control-characters; since the D26 fix a lone surrogate no longer makes the XML check raise *)
 Theorem C16_no_crash : forall cfg cat, c_maxd cfg = 0 -> ctl_complete (c_ctlnames cfg) ->
-  (forall e, In e cat -> scalar_text (me_msgid e) /\ scalar_text (me_msgstr e)) ->
   exists ds, check_messages cfg cat = Ok ds.
 Proof. exact check_messages_total. Qed.
 Print Assumptions C16_no_crash.
